@@ -34,6 +34,7 @@ type fFilter struct {
 	ev     func(in []fCell) (out []fCell, invalid bool)
 	sample bool // row-sample: whole row or nothing
 	dup    bool // may emit duplicates (interleave): per-column order is non-strict
+	rowLvl bool // validity is established even on a row without cells (row-level filter)
 }
 
 func fAny(cs []fCell) bool {
@@ -113,10 +114,14 @@ func c05Leaf(k int) fFilter {
 	switch k {
 	case 0: // pass_all
 		flag := vNondetBool("passall.flag")
-		return perCell(&btpb.RowFilter{Filter: &btpb.RowFilter_PassAllFilter{PassAllFilter: flag}}, vNot(flag), func(c fCell) bool { return true })
+		f := perCell(&btpb.RowFilter{Filter: &btpb.RowFilter_PassAllFilter{PassAllFilter: flag}}, vNot(flag), func(c fCell) bool { return true })
+		f.rowLvl = true
+		return f
 	case 1: // block_all
 		flag := vNondetBool("blockall.flag")
-		return perCell(&btpb.RowFilter{Filter: &btpb.RowFilter_BlockAllFilter{BlockAllFilter: flag}}, vNot(flag), func(c fCell) bool { return false })
+		f := perCell(&btpb.RowFilter{Filter: &btpb.RowFilter_BlockAllFilter{BlockAllFilter: flag}}, vNot(flag), func(c fCell) bool { return false })
+		f.rowLvl = true
+		return f
 	case 2: // timestamp range [start,end), 0 = unbounded end
 		st, en := vNondetInt64("tsr.start"), vNondetInt64("tsr.end")
 		invalid := vOr(st%1000 != 0, en%1000 != 0)
@@ -164,7 +169,7 @@ func c05Leaf(k int) fFilter {
 			})
 	case 5: // cells per column limit
 		n := vNondetInt32("cpcl.n")
-		return fFilter{pb: &btpb.RowFilter{Filter: &btpb.RowFilter_CellsPerColumnLimitFilter{CellsPerColumnLimitFilter: n}},
+		return fFilter{pb: &btpb.RowFilter{Filter: &btpb.RowFilter_CellsPerColumnLimitFilter{CellsPerColumnLimitFilter: n}}, rowLvl: true,
 			ev: func(in []fCell) ([]fCell, bool) {
 				out := fClone(in)
 				for i := range out {
@@ -174,7 +179,7 @@ func c05Leaf(k int) fFilter {
 			}}
 	case 6: // cells per row limit
 		n := vNondetInt32("cprl.n")
-		return fFilter{pb: &btpb.RowFilter{Filter: &btpb.RowFilter_CellsPerRowLimitFilter{CellsPerRowLimitFilter: n}},
+		return fFilter{pb: &btpb.RowFilter{Filter: &btpb.RowFilter_CellsPerRowLimitFilter{CellsPerRowLimitFilter: n}}, rowLvl: true,
 			ev: func(in []fCell) ([]fCell, bool) {
 				out := fClone(in)
 				for i := range out {
@@ -184,7 +189,7 @@ func c05Leaf(k int) fFilter {
 			}}
 	case 7: // cells per row offset
 		n := vNondetInt32("cpro.n")
-		return fFilter{pb: &btpb.RowFilter{Filter: &btpb.RowFilter_CellsPerRowOffsetFilter{CellsPerRowOffsetFilter: n}},
+		return fFilter{pb: &btpb.RowFilter{Filter: &btpb.RowFilter_CellsPerRowOffsetFilter{CellsPerRowOffsetFilter: n}}, rowLvl: true,
 			ev: func(in []fCell) ([]fCell, bool) {
 				out := fClone(in)
 				for i := range out {
